@@ -310,8 +310,20 @@ def part2_fd(ctx):
             if adaptive:
                 kw.update(adaptive=True, rtol=lay["tol"], atol=lay["tol"], dt_min=lay["dt_min"])
 
+            # every third fixed-step case of a diagonal / additive problem also asks for logqp=True (prior drift h = -y/2):
+            # the loss then includes the KL increments, and the gradient w.r.t. y0 flows through the augmented state
+            use_lq = (not adaptive) and nt in ("diagonal", "additive") and (ci + li) % 3 == 0
+            if use_lq:
+                sde.h = lambda t, y: -0.5 * y
+                key["logqp"] = True
+            pad = 1 if (use_lq and nt == "diagonal") else 0
+
             def loss_fn(y0_):
-                bm = S.ReplayBrownian(inner, record)
+                bm = S.ReplayBrownian(inner, record, pad=pad) if pad else S.ReplayBrownian(inner, record)
+                if use_lq:
+                    ys, lq = torchsde.sdeint(sde, y0_, ts, bm=bm, logqp=True, **kw)
+                    schedules.append([q[:2] for q in bm.queries])
+                    return (w * ys).sum() + 0.125 * lq.sum(), ((w * ys).abs().sum() + 0.125 * lq.abs().sum()).detach()
                 ys = torchsde.sdeint(sde, y0_, ts, bm=bm, **kw)
                 schedules.append([q[:2] for q in bm.queries])
                 return (w * ys).sum(), (w * ys).abs().sum().detach()
